@@ -399,7 +399,8 @@ func crcRun(in []byte) (interface{}, error) {
 			if pos >= len(file)-8 {
 				class = "crc"
 			}
-			for _, c := range substs(file[pos], all && len(file) < 80) {
+			// the header (magic + version digits) and the end-of-file opcode decide HOW the file is read: every substitution there
+			for _, c := range substs(file[pos], (all && len(file) < 80) || pos < 9 || pos == len(file)-9) {
 				m := append([]byte{}, file...)
 				m[pos] = c
 				acc, _ := loadFile(m)
